@@ -811,6 +811,35 @@ fn main() {
                 };
                 format!("{{\"variant\":{}}}", variant)
             }
+            // xfer <scenario> <split>: transfer frames through a real ReceiverInner::on_incoming_transfer.
+            //   The message is an amqp-value section holding a 12-byte binary, cut after <split> payload bytes.
+            //   scenario 0: two frames (more, then final; the second omits id and tag)            -> one delivery
+            //   scenario 1: first frame (more), abort frame REPEATING the tag, then a whole next delivery
+            //   scenario 2: first frame (more), abort frame OMITTING the tag,  then a whole next delivery
+            //   scenario 3: three frames, continuation frames repeat id and tag
+            "xfer" => {
+                let split = (nums[1] as usize).min(16);
+                let data: Vec<u8> = (1..=12u8).collect();
+                let mut msg = vec![0x00u8, 0x53, 0x77, 0xa0, 12];
+                msg.extend_from_slice(&data);
+                let fr = |id: Option<u32>, tag: Option<u8>, more: bool, aborted: bool, payload: &[u8]| VTransferFrame { delivery_id: id, delivery_tag: tag.map(|t| vec![t]), more, aborted, settled: None, payload: payload.to_vec() };
+                let (a, b) = msg.split_at(split.min(msg.len()));
+                let frames: Vec<VTransferFrame> = match nums[0] {
+                    0 => vec![fr(Some(0), Some(1), true, false, a), fr(None, None, false, false, b)],
+                    1 => vec![fr(Some(0), Some(1), true, false, a), fr(Some(0), Some(1), false, true, &[]), fr(Some(1), Some(2), false, false, &msg)],
+                    2 => vec![fr(Some(0), Some(1), true, false, a), fr(None, None, false, true, &[]), fr(Some(1), Some(2), false, false, &msg)],
+                    _ => {
+                        let (b1, b2) = b.split_at(b.len() / 2);
+                        vec![fr(Some(0), Some(1), true, false, a), fr(Some(0), Some(1), true, false, b1), fr(Some(0), Some(1), false, false, b2)]
+                    }
+                };
+                let outs = receiver_transfer_sequence(&frames);
+                let last = outs.last().unwrap();
+                let items: Vec<String> = outs.iter().map(|o| format!("{{\"kind\":{},\"buffered\":{}}}", o.kind, o.buffered)).collect();
+                let deliveries = outs.iter().filter(|o| o.kind == 1).count();
+                let want_id = if nums[0] == 1 || nums[0] == 2 { 1 } else { 0 };
+                format!("{{\"outs\":[{}],\"deliveries\":{},\"last_is_delivery\":{},\"last_body_ok\":{},\"last_id_ok\":{},\"buffered_at_end\":{}}}", items.join(","), deliveries, last.kind == 1, last.body == data, last.delivery_id == want_id, last.buffered)
+            }
             // iochunk <k>: values that go through the io reader's peek buffer, decoded from a reader that
             //   delivers at most <k> bytes per read() call, compared with the slice reader
             "iochunk" => {
@@ -879,6 +908,62 @@ fn main() {
                 }
                 let pos = nums[0];
                 CREDIT.store(nums[1] as u32, Ordering::SeqCst);
+                if pos == 3 {
+                    // the woken waiter is polled IMMEDIATELY (as another worker thread would do): the waker
+                    // itself polls the waiting future, i.e. right inside notify_waiters(). After the grant has
+                    // completed and every wake-up has been served, the waiter must have its credit.
+                    use std::task::{RawWaker, RawWakerVTable, Waker};
+                    type Fut = std::pin::Pin<Box<dyn Future<Output = [u8; 4]>>>;
+                    static mut FUT: Option<Fut> = None;
+                    static DONE: AtomicBool = AtomicBool::new(false);
+                    static WAKES: AtomicU32 = AtomicU32::new(0);
+                    fn poll_waiter() {
+                        #[allow(static_mut_refs)]
+                        unsafe {
+                            if DONE.load(Ordering::SeqCst) {
+                                return;
+                            }
+                            if let Some(f) = FUT.as_mut() {
+                                let w = mk_waker();
+                                let mut cx = std::task::Context::from_waker(&w);
+                                if f.as_mut().poll(&mut cx).is_ready() {
+                                    DONE.store(true, Ordering::SeqCst);
+                                }
+                            }
+                        }
+                    }
+                    fn v_clone(_: *const ()) -> RawWaker {
+                        RawWaker::new(std::ptr::null(), &VT)
+                    }
+                    fn v_wake(_: *const ()) {
+                        WAKES.fetch_add(1, Ordering::SeqCst);
+                        poll_waiter();
+                    }
+                    fn v_drop(_: *const ()) {}
+                    static VT: RawWakerVTable = RawWakerVTable::new(v_clone, v_wake, v_wake, v_drop);
+                    fn mk_waker() -> Waker {
+                        unsafe { Waker::from_raw(RawWaker::new(std::ptr::null(), &VT)) }
+                    }
+                    let st: &'static VSenderFlow = Box::leak(Box::new(VSenderFlow::new(VFlowInner { initial_delivery_count: 7, delivery_count: 7, link_credit: 0, available: 0, drain: false })));
+                    let (consumer, producer) = st.split(std::sync::Arc::new(tokio::sync::Notify::new()));
+                    let consumer: &'static VCreditConsumer = Box::leak(Box::new(consumer));
+                    unsafe {
+                        PRODUCER = Some(producer);
+                        FUT = Some(Box::pin(consumer.consume(1)));
+                    }
+                    DONE.store(false, Ordering::SeqCst);
+                    WAKES.store(0, Ordering::SeqCst);
+                    set_schedule_hook(None);
+                    poll_waiter(); // parks: no credit yet
+                    let first = DONE.load(Ordering::SeqCst);
+                    grant(); // produce(): the waker polls the waiter from inside notify_waiters()
+                    let second = DONE.load(Ordering::SeqCst);
+                    let c = st.snapshot().link_credit;
+                    unsafe {
+                        std::mem::forget(FUT.take());
+                    }
+                    return format!("{{\"first_ready\":{},\"second_ready\":{},\"credit_left\":{},\"wakes\":{}}}", first, second, c, WAKES.load(Ordering::SeqCst));
+                }
                 let st = VSenderFlow::new(VFlowInner { initial_delivery_count: 7, delivery_count: 7, link_credit: 0, available: 0, drain: false });
                 let (consumer, producer) = st.split(std::sync::Arc::new(tokio::sync::Notify::new()));
                 unsafe {
